@@ -41,6 +41,7 @@ type c15Opt struct {
 	Kind string // Bool Int Uint Float64 Duration String StringSlice FloatSlice
 	V    map[string]string
 	Ctx  []string // command line context that makes the values meaningful
+	Deg  bool     // v1 is a degenerate value (see c15_history_test.go)
 }
 
 type c15Vals struct {
@@ -168,14 +169,18 @@ type c15Case struct {
 	Value    string   `json:"value"`
 	Result   string   `json:"result"`
 	// replay only
-	Kind    string   `json:"kind,omitempty"` // "" (TLC case) | "robust"
-	Opt     string   `json:"opt,omitempty"`
-	Idx     int      `json:"idx"`
-	Args    []string `json:"args,omitempty"`
-	EnvB64  []string `json:"environ_b64,omitempty"`
-	FileB64 string   `json:"file_b64,omitempty"`
-	EnvText []string `json:"environ_text,omitempty"`
-	Note    string   `json:"note,omitempty"`
+	Kind   string `json:"kind,omitempty"` // "" (TLC case) | "robust"
+	Opt    string `json:"opt,omitempty"`
+	Deg    string `json:"deg,omitempty"` // the degenerate value that stood for v1
+	DegSet bool   `json:"deg_set,omitempty"`
+	// the generator's list of degenerate values (one record)
+	Degenerate []string `json:"degenerate,omitempty"`
+	Idx        int      `json:"idx"`
+	Args       []string `json:"args,omitempty"`
+	EnvB64     []string `json:"environ_b64,omitempty"`
+	FileB64    string   `json:"file_b64,omitempty"`
+	EnvText    []string `json:"environ_text,omitempty"`
+	Note       string   `json:"note,omitempty"`
 }
 
 const c15None = "-"
@@ -364,6 +369,7 @@ type c15Worker struct {
 	loads   int64
 	ran     int64
 	skipped int64
+	ndeg    int64
 	flaky   int64
 	nontriv int64
 	unobs   []string
@@ -412,6 +418,9 @@ func c15Feat(clause string, c *c15Case, o *c15Opt, extra map[string]any) map[str
 	n := c15NSources(c)
 	f := map[string]any{"sub": "sources", "clause": clause, "kind": o.Kind, "winner": c.Winner, "nsources": n,
 		"junk": len(c.Junk) > 0, "fstate": c.Fstate}
+	if o.Deg {
+		f["value"] = "degenerate"
+	}
 	for k, v := range extra {
 		f[k] = v
 	}
@@ -431,7 +440,7 @@ func (w *c15Worker) runCase(c *c15Case, o *c15Opt, ref *c15Ref, idx int) bool {
 			return false // the model instance of this option has Bad = {}
 		}
 	}
-	if ref.isBad["v1"] || ref.isBad["v2"] {
+	if !o.Deg && (ref.isBad["v1"] || ref.isBad["v2"]) {
 		return false // table value refused by this tree: nothing to compare against (reported in the summary)
 	}
 	if c.Via == "readfile" {
@@ -460,6 +469,9 @@ func (w *c15Worker) runCase(c *c15Case, o *c15Opt, ref *c15Ref, idx int) bool {
 	}
 	rec := *c
 	rec.Opt, rec.Idx, rec.Args, rec.EnvB64, rec.EnvText = o.Name, idx, args, c15B64(environ), c15Quote(environ)
+	if o.Deg {
+		rec.Deg, rec.DegSet = o.V["v1"], true
+	}
 	if hasFile {
 		rec.FileB64 = base64.StdEncoding.EncodeToString([]byte(file))
 	}
@@ -470,6 +482,9 @@ func (w *c15Worker) runCase(c *c15Case, o *c15Opt, ref *c15Ref, idx int) bool {
 		if len(c.Junk) > 0 {
 			blame = c15Blame(args, env)
 			src = "environ"
+		}
+		if o.Deg {
+			src, blame = c.Winner, "degenerate-value"
 		}
 		verifx.Fail(rec, map[string]any{"sub": "sources", "clause": "load-panic", "source": src, "entry": blame},
 			"config.Load panicked: %v\n%s\n%s", got.panic, desc, c15Stack(got.stack))
@@ -693,10 +708,21 @@ func c15RunShard(t *testing.T, shard, shards int) {
 			only[n] = true
 		}
 	}
-	cases, err := verifx.ReadCases[c15Case]("VERIF_IN")
+	all, err := verifx.ReadCases[c15Case]("VERIF_IN")
 	if err != nil {
 		t.Fatal(err)
 	}
+	var cases []c15Case
+	var words []string
+	for _, c := range all {
+		if c.Degenerate != nil {
+			words = c.Degenerate
+			sort.Strings(words)
+		} else {
+			cases = append(cases, c)
+		}
+	}
+	few := verifx.EnvInt("VERIF_C15_DEG_FEW", 2)
 	seed := verifx.Seed()
 	w := &c15Worker{opts: opts, path: filepath.Join(os.Getenv("VERIF_TMP"), fmt.Sprintf("c15-%d.properties", shard))}
 	extraEvery := int64(verifx.EnvInt("VERIF_C15_EXTRA_EVERY", 1))
@@ -718,6 +744,12 @@ func c15RunShard(t *testing.T, shard, shards int) {
 			continue
 		}
 		nopts++
+		for i := range cases { // replay of a degenerate-value failure: v1 stands for that value
+			if cases[i].Opt == o.Name && cases[i].DegSet {
+				o.Deg = true
+				o.V = map[string]string{"v1": cases[i].Deg, "v2": o.V["v2"]}
+			}
+		}
 		ref := w.reference(o)
 		for k, out := range ref.out {
 			if out.panic != nil {
@@ -725,7 +757,7 @@ func c15RunShard(t *testing.T, shard, shards int) {
 					"config.Load panicked for -%s=%q: %v\n%s", o.Name, o.V[k], out.panic, c15Stack(out.stack))
 			}
 		}
-		if ref.isBad["v1"] || ref.isBad["v2"] {
+		if !o.Deg && (ref.isBad["v1"] || ref.isBad["v2"]) {
 			verifx.Emit(map[string]any{"kind": "note", "msg": fmt.Sprintf("option %s: table value refused on the command line (v1: %v, v2: %v); option not compared",
 				o.Name, ref.out["v1"].err, ref.out["v2"].err), "opt": o.Name, "class": "table"})
 			w.unobs = append(w.unobs, o.Name+"(refused)")
@@ -765,6 +797,11 @@ func c15RunShard(t *testing.T, shard, shards int) {
 			}
 		}
 	}
+	for oi := range opts {
+		if oi%shards == shard && len(only) == 0 && len(words) > 0 {
+			w.degenerate(&opts[oi], oi, cases, words, seed, few)
+		}
+	}
 	for i := range cases {
 		if cases[i].Kind == "robust" && shard == 0 {
 			c15ReplayRobust(&cases[i])
@@ -775,11 +812,19 @@ func c15RunShard(t *testing.T, shard, shards int) {
 	if n := verifx.EnvInt("VERIF_C15_ROBUST", 0); n > 0 {
 		nrob = w.robust(rand.New(rand.NewSource(seed*1000+int64(shard))), n/shards+1)
 	}
-	verifx.Summary(map[string]any{"options": nopts, "all_options": len(opts), "cases": len(cases), "ran": w.ran, "loads": w.loads, "skipped": w.skipped, "flaky": w.flaky,
+	verifx.Summary(map[string]any{"options": nopts, "all_options": len(opts), "cases": len(cases), "ran": w.ran, "loads": w.loads, "skipped": w.skipped, "flaky": w.flaky, "degenerate_replays": w.ndeg,
 		"distinct_nontrivial": w.nontriv, "unobservable": w.unobs, "bad_accepted": w.badAcc, "robust": nrob, "samples": w.samples})
 }
 
 func TestVerifC15(t *testing.T) {
+	switch os.Getenv("VERIF_C15_MODE") {
+	case "single":
+		c15RunSingle(t)
+		return
+	case "history":
+		c15RunHistory(t)
+		return
+	}
 	if s := os.Getenv("VERIF_SHARD"); s != "" {
 		shard, _ := strconv.Atoi(s)
 		c15RunShard(t, shard, verifx.EnvInt("VERIF_SHARDS", 1))
@@ -800,7 +845,20 @@ func TestVerifC15(t *testing.T) {
 		err error
 		out []byte
 	}
-	done := make(chan res, shards)
+	done := make(chan res, shards+1)
+	names := []string{}
+	for k := 0; k < shards; k++ {
+		names = append(names, strconv.Itoa(k))
+	}
+	if os.Getenv("VERIF_C15_HIST") != "" {
+		names = append(names, "history")
+		go func() {
+			cmd := exec.Command(os.Args[0], "-test.run=^TestVerifC15$", "-test.timeout=1500s")
+			cmd.Env = append(os.Environ(), "VERIF_C15_MODE=history", "VERIF_OUT="+filepath.Join(tmp, "c15-shard-history.ndjson"))
+			out, err := cmd.CombinedOutput()
+			done <- res{err, out}
+		}()
+	}
 	for k := 0; k < shards; k++ {
 		go func(k int) {
 			cmd := exec.Command(os.Args[0], "-test.run=^TestVerifC15$", "-test.timeout=1500s")
@@ -811,7 +869,7 @@ func TestVerifC15(t *testing.T) {
 		}(k)
 	}
 	ok := true
-	for k := 0; k < shards; k++ {
+	for range names {
 		r := <-done
 		if r.err != nil {
 			ok = false
@@ -822,8 +880,8 @@ func TestVerifC15(t *testing.T) {
 	ints := map[string]int64{}
 	lists := map[string][]any{}
 	summaries := 0
-	for k := 0; k < shards; k++ {
-		f, err := os.Open(filepath.Join(tmp, fmt.Sprintf("c15-shard-%d.ndjson", k)))
+	for _, k := range names {
+		f, err := os.Open(filepath.Join(tmp, fmt.Sprintf("c15-shard-%s.ndjson", k)))
 		if err != nil {
 			ok = false
 			continue
@@ -855,8 +913,8 @@ func TestVerifC15(t *testing.T) {
 		}
 		f.Close()
 	}
-	if !ok || summaries != shards {
-		t.Fatalf("%d of %d workers completed", summaries, shards)
+	if !ok || summaries != len(names) {
+		t.Fatalf("%d of %d workers completed", summaries, len(names))
 	}
 	for k, v := range ints {
 		total[k] = v
